@@ -1319,3 +1319,83 @@ def rule_parts_used(ctx: Ctx, prog: Program) -> None:
                                   "solver constructor, nor of a helper whose parameter reaches one): every worker searches the same problem and every "
                                   "solution is reported once per worker")
     ctx.floor("R-SPLIT:consumers-of-split", n, 1)
+
+
+# ------------------------------------------------------------------------------------------ R-POSTED-KEPT
+def rule_posted_kept(ctx: Ctx, prog: Program) -> None:
+    """Every constraint that is posted stays posted.  The list of constraints of a problem has three legitimate writers: the constructor (a
+    fresh empty list), add_propagator / add_propagators (append / extend, on every path) and init() (an in-place sort).  A presolve that drops a
+    constraint because its filtering function answers 'entailed' on the initial domains is wrong twice over: the answer is given for a box, not
+    for the constraint's lifetime (the filtering done in that very call is thrown away with it; a restart, a split part or an objective bound
+    gives other domains), and the box is easily not the constraint's own (views without their offsets).  Who-may-write rule, every module:
+    `<x>.propagators` is never reassigned outside a constructor, never shortened (remove / pop / del / clear / slice or filtered
+    reassignment), and the posting methods append their argument unconditionally."""
+    ctx.rule("R-POSTED-KEPT")
+    n_writers = 0
+    shrinkers = {"remove", "pop", "clear", "__delitem__"}
+    for f in prog.all_functions():
+        if not f.module.startswith(prog.package + "."):
+            continue
+        for n in ast.walk(f.node):
+            # reassignment / deletion / slice store
+            tg: List[ast.expr] = []
+            if isinstance(n, ast.Assign):
+                tg = list(n.targets)
+            elif isinstance(n, (ast.AugAssign, ast.AnnAssign)):
+                tg = [n.target]
+            elif isinstance(n, ast.Delete):
+                tg = list(n.targets)
+            for t in tg:
+                base = t.value if isinstance(t, ast.Subscript) else t
+                if isinstance(base, ast.Attribute) and base.attr == "propagators":
+                    n_writers += 1
+                    fresh = isinstance(n, (ast.Assign, ast.AnnAssign)) and not isinstance(t, ast.Subscript) and isinstance(n.value, ast.List) and not n.value.elts
+                    if fresh and f.name == "__init__":
+                        ctx.ok("R-POSTED-KEPT", f"{f.qualname}: the list of constraints starts empty", nontrivial=False)
+                    elif isinstance(n, ast.AugAssign) and isinstance(n.op, ast.Add):
+                        ctx.ok("R-POSTED-KEPT", f"{f.qualname}: constraints are added (+=)", nontrivial=False)
+                    else:
+                        ctx.violation("R-POSTED-KEPT", f.path, f.qualname, "constraint-list-rewritten", f"{f.path}:{n.lineno}",
+                                      f"{f.qualname} rewrites the list of posted constraints (`{ast.unparse(n)[:70]}`): a constraint that was posted can disappear "
+                                      "from the model that is solved (a filter on 'entailed by the initial domains' judges one box, not the constraint)")
+            if isinstance(n, ast.Call) and isinstance(n.func, ast.Attribute) and isinstance(n.func.value, ast.Attribute) and n.func.value.attr == "propagators":
+                n_writers += 1
+                if n.func.attr in shrinkers:
+                    ctx.violation("R-POSTED-KEPT", f.path, f.qualname, "constraint-removed", f"{f.path}:{n.lineno}",
+                                  f"{f.qualname} removes an element of the list of posted constraints ({n.func.attr})")
+    # the posting methods append their argument on every path
+    m = prog.modules.get(f"{prog.package}.{PB_MOD}")
+    cls = m.classes.get("Problem", {}) if m else {}
+    n_post = 0
+    for name in ("add_propagator", "add_propagators"):
+        f = cls.get(name)
+        if f is None:
+            raise AnalysisError(f"R-POSTED-KEPT: Problem.{name} not found")
+        arg = f.params[1] if len(f.params) > 1 else None
+        ok = False
+        for st in f.node.body:
+            if isinstance(st, ast.Expr) and isinstance(st.value, ast.Call) and isinstance(st.value.func, ast.Attribute):
+                c = st.value
+                if c.func.attr in ("append", "extend") and isinstance(c.func.value, ast.Attribute) and c.func.value.attr == "propagators" \
+                        and len(c.args) == 1 and isinstance(c.args[0], ast.Name) and c.args[0].id == arg:
+                    ok = True
+            if isinstance(st, ast.AugAssign) and isinstance(st.op, ast.Add) and isinstance(st.target, ast.Attribute) and st.target.attr == "propagators":
+                ok = True
+            if isinstance(st, ast.For) and isinstance(st.iter, ast.Name) and st.iter.id == arg and isinstance(st.target, ast.Name):
+                for s2 in st.body:  # unconditional delegation, one by one
+                    if isinstance(s2, ast.Expr) and isinstance(s2.value, ast.Call) and isinstance(s2.value.func, ast.Attribute) \
+                            and s2.value.func.attr in ("add_propagator", "append") and len(s2.value.args) == 1 \
+                            and isinstance(s2.value.args[0], ast.Name) and s2.value.args[0].id == st.target.id:
+                        ok = True
+        n_post += 1
+        if ok:
+            ctx.ok("R-POSTED-KEPT", f"Problem.{name} appends its argument on every path")
+        else:
+            cond = any(isinstance(x, ast.Call) and isinstance(x.func, ast.Attribute) and x.func.attr in ("append", "extend", "add_propagator") for x in ast.walk(f.node))
+            if cond:
+                ctx.violation("R-POSTED-KEPT", f.path, f"Problem.{name}", "conditionally-posted", f.loc(),
+                              f"Problem.{name} adds the constraint only on some paths (the append is nested under a condition): a constraint the caller posted "
+                              "is silently left out of the model")
+            else:
+                raise AnalysisError(f"R-POSTED-KEPT: Problem.{name}: how the constraint is recorded is not read")
+    ctx.floor("R-POSTED-KEPT:writers of the constraint list", n_writers, 4)
